@@ -7,61 +7,7 @@ verus! {
 
 //@item src/common.rs struct HTTPVersion
 
-pub open spec fn lex_cmp(a: (u8, u8), b: (u8, u8)) -> Ordering {
-    if a.0 < b.0 { Ordering::Less } else if a.0 > b.0 { Ordering::Greater }
-    else if a.1 < b.1 { Ordering::Less } else if a.1 > b.1 { Ordering::Greater } else { Ordering::Equal }
-}
-
-// A5: the companions vstd demands; the real bodies below are verified against these spec functions,
-// so `a <= b` / `a > b` on versions in other units means exactly lex_cmp.
-impl vstd::std_specs::cmp::PartialEqSpecImpl for HTTPVersion {
-    open spec fn obeys_eq_spec() -> bool { true }
-    open spec fn eq_spec(&self, other: &HTTPVersion) -> bool { *self == *other }
-}
-impl vstd::std_specs::cmp::PartialOrdSpecImpl for HTTPVersion {
-    open spec fn obeys_partial_cmp_spec() -> bool { true }
-    open spec fn partial_cmp_spec(&self, other: &HTTPVersion) -> Option<Ordering> { Some(lex_cmp((self.0, self.1), (other.0, other.1))) }
-}
-impl vstd::std_specs::cmp::OrdSpecImpl for HTTPVersion {
-    open spec fn obeys_cmp_spec() -> bool { true }
-    open spec fn cmp_spec(&self, other: &HTTPVersion) -> Ordering { lex_cmp((self.0, self.1), (other.0, other.1)) }
-}
-impl vstd::std_specs::cmp::PartialEqSpecImpl<(u8, u8)> for HTTPVersion {
-    open spec fn obeys_eq_spec() -> bool { true }
-    open spec fn eq_spec(&self, other: &(u8, u8)) -> bool { self.0 == other.0 && self.1 == other.1 }
-}
-impl vstd::std_specs::cmp::PartialOrdSpecImpl<(u8, u8)> for HTTPVersion {
-    open spec fn obeys_partial_cmp_spec() -> bool { true }
-    open spec fn partial_cmp_spec(&self, other: &(u8, u8)) -> Option<Ordering> { Some(lex_cmp((self.0, self.1), *other)) }
-}
-
-//@impl src/common.rs "Ord for HTTPVersion"
-//@fn cmp ret r props C05,C10
-//@spec
-    ensures r == lex_cmp((self.0, self.1), (other.0, other.1)),   // O-VERSION-ORDER: lexicographic on (major, minor)
-//@endfn
-//@endimpl
-
-//@impl src/common.rs "PartialOrd for HTTPVersion"
-//@fn partial_cmp ret r props C05,C10
-//@spec
-    ensures r == Some(lex_cmp((self.0, self.1), (other.0, other.1))),
-//@endfn
-//@endimpl
-
-//@impl src/common.rs "PartialOrd<(u8, u8)> for HTTPVersion"
-//@fn partial_cmp ret r props C05,C10
-//@spec
-    ensures r == Some(lex_cmp((self.0, self.1), *__p)),
-//@endfn
-//@endimpl
-
-//@impl src/common.rs "PartialEq<(u8, u8)> for HTTPVersion"
-//@fn eq ret r props C05,C10
-//@spec
-    ensures r == (self.0 == __p.0 && self.1 == __p.1),
-//@endfn
-//@endimpl
+//@include contracts/version_cmp.inc
 
 } // verus!
 fn main() {}
